@@ -106,6 +106,9 @@ func cmdRun(args []string) int {
 			}()
 			eng.Run(seed, a.Tier, res)
 		}()
+		if simrt.RaceBuild {
+			collectRaces(res, a.Prop, seed)
+		}
 	}
 	res.WallSeconds = time.Since(t0).Seconds()
 	if err := res.WriteJSON(a.Out); err != nil {
